@@ -11,3 +11,19 @@ Lemma tie_gex_names : In gex256 gex_algs /\ In gex256 rec_chg_names.
 Proof. split; cbn; tauto. Qed.
 Lemma tie_2048_warning : gex_warn_text = k2_WARN_2048BIT_MODULUS /\ hk_two2k_warning = k2_WARN_2048BIT_MODULUS.
 Proof. split; reflexivity. Qed.
+
+(* the decisions of GEXTest.run() as they read now (T1c translation): the early break of the exact-size loop, the condition under which the
+   follow-up request (2048, 3072, 4096) is sent, and openssh_test_updated are the expressions the model's exact_loop / probe_loop use *)
+Lemma tie_gex_break : forall b sm, ((sm <=? b) && (0 <? sm))%Z = src_gex_break b sm.
+Proof. intros b sm. unfold src_gex_break. rewrite Z.geb_leb, Z.gtb_ltb. reflexivity. Qed.
+Lemma tie_gex_second_pass : forall sm sw,
+  ((sm =? gex_openssh_trigger)%Z && is_openssh sw) =
+  match sw with Some s => src_gex_second_pass sm true s | None => src_gex_second_pass sm false EmptyString end.
+Proof.
+  intros sm [s|]; unfold src_gex_second_pass, is_openssh, Terrapin.openssh_2048, gex_openssh_trigger, only_kex, gex256;
+    cbn [Terrapin.kl_kex mem assoc]; rewrite !String.eqb_refl; change (2048 =? 2048)%Z with true; cbn [andb].
+  - rewrite andb_true_r. reflexivity.
+  - rewrite !andb_false_r. reflexivity.
+Qed.
+Lemma tie_gex_updated : forall sm2, ((0 <? sm2) && negb (sm2 =? gex_openssh_trigger))%Z = src_gex_updated sm2.
+Proof. intros sm2. unfold src_gex_updated, gex_openssh_trigger. rewrite Z.gtb_ltb. reflexivity. Qed.
